@@ -33,7 +33,8 @@ GJ = "4915130000001-1500000000@g.us"
 GJ2 = "4915130000001-1500000001@g.us"
 APP_KINDS = ["ping", "lastseen", "picture", "privacy", "statuses", "setstatus", "grouplist", "groupinfo",
              "create", "leave", "subject", "addp", "removep", "promote", "demote", "sync"]
-MODES = ["result", "result", "result", "error", "error", "dup_result", "dup_error", "unknown_id", "nonreply_then_result"]
+MODES = ["result", "result", "result", "error", "error", "dup_result", "dup_error", "unknown_id", "nonreply_then_result",
+         "error_then_result", "result_then_error"]
 _S = {}
 
 
@@ -66,7 +67,7 @@ def case(idx, tier, base):
         for _ in range(r.randint(1, 6)):
             if internal_left and r.random() < 0.25:
                 k = internal_left.pop(r.randrange(len(internal_left)))
-                mode = r.choice(["result", "result", "error", "dup_result", "unknown_id"])
+                mode = r.choice(["result", "result", "error", "dup_result", "unknown_id", "error_then_result", "error_then_result"])
             else:
                 k = r.choice(APP_KINDS)
                 mode = r.choice(MODES)
@@ -228,16 +229,18 @@ class W(convo.World):
                 rid = entity.getId()
                 w.registered_internal.setdefault(rid, {"req": entity, "layer": layer.__class__.__name__})
 
+                w.registered_internal[rid]["has_err"] = onError is not None
+                w.registered_internal[rid]["has_ok"] = onSuccess is not None
+
                 def ok(node, req, onSuccess=onSuccess):
                     w.calls.append((rid, "ok", req is entity, "internal"))
-                    if onSuccess:
-                        return onSuccess(node, req)
+                    return onSuccess(node, req)
 
                 def err(node, req, onError=onError):
                     w.calls.append((rid, "err", req is entity, "internal"))
-                    if onError:
-                        return onError(node, req)
-                return orig(entity, ok, err)
+                    return onError(node, req)
+                # observation only: a callback the library did not register stays unregistered
+                return orig(entity, ok if onSuccess is not None else None, err if onError is not None else None)
 
             layer._sendIq = wrapped
 
@@ -355,6 +358,14 @@ class W(convo.World):
             self.wait_quiescent(60)
             self.reply(reqnode, kind, "result")
             rec["delivered"] = ["result"]
+        elif mode in ("error_then_result", "result_then_error"):
+            first, second = mode.split("_then_")
+            self.reply(reqnode, kind, first)
+            self.kick_server()
+            self.wait_quiescent(60)
+            self.reply(reqnode, kind, second)
+            self.on_fault("srv_dup_reply", rec["id"], {})
+            rec["delivered"] = [first, second]
         elif mode.startswith("dup_"):
             t = mode[4:]
             self.reply(reqnode, kind, t)
@@ -383,10 +394,17 @@ class W(convo.World):
                 first = rec["delivered"][0]
                 want = [("ok" if first == "result" else "err")]
                 src = "internal" if kind in ("keyfetch", "groupinfo_int") else "app"
+                if src == "internal":
+                    reg = self.registered_internal.get(rid, {})
+                    if (want[0] == "err" and not reg.get("has_err", True)) or (want[0] == "ok" and not reg.get("has_ok", True)):
+                        want = []   # the library registered no callback for this reply type: nothing may run
                 got = [(c[1], c[2]) for c in self.calls if c[0] == rid and c[3] == src]
                 label = "%s/%s" % (kind, "error-reply" if first == "error" else "result-reply")
                 if [g[0] for g in got] != want:
-                    if not got:
+                    if not want:
+                        self.violate("callback-for-replayed-reply/%s" % label, "request %s id=%s (mode %s): no callback is "
+                                     "registered for the first reply, yet callbacks ran: %s" % (kind, rid, rec["mode"], got))
+                    elif not got:
                         self.violate("callback-not-invoked/%s" % label, "request %s id=%s (mode %s): the reply was delivered "
                                      "but neither callback of the request ran (expected %s once)" % (kind, rid, rec["mode"], want[0]))
                     elif len(got) > 1:
@@ -395,6 +413,8 @@ class W(convo.World):
                     else:
                         self.violate("wrong-callback/%s" % label, "request %s id=%s: %s callback ran for a %s reply"
                                      % (kind, rid, got[0][0], first))
+                elif not want:
+                    self.probe("dup_ignored")
                 elif not got[0][1]:
                     self.violate("callback-without-original-request/%s" % label, "request %s id=%s: the callback did not get "
                                  "the original request object" % (kind, rid))
